@@ -340,7 +340,7 @@ def _static_truth(t):
     return None
 
 
-def path_returns(fn, limit=256):
+def path_returns(fn, limit=256, assign_calls=False):
     """Enumerate the ends of a function: [(guards, 'return'|'raise'|'fall', value expr with locals substituted)].
     Loops are entered once (their assignments make the assigned names opaque afterwards); `effects` lists the expression
     statements (calls) met on the path, substituted."""
@@ -369,6 +369,9 @@ def path_returns(fn, limit=256):
                 for t in tg:
                     if isinstance(t, ast.Name):
                         env[t.id] = v
+                        if assign_calls and any(isinstance(x, ast.Call) for x in ast.walk(v)):
+                            # the call happens here whether or not the local is used later
+                            effects = effects + [ast.Expr(value=v)]
                     elif isinstance(t, ast.Tuple) and isinstance(v, ast.Tuple) and len(t.elts) == len(v.elts):
                         for a, b in zip(t.elts, v.elts):
                             if isinstance(a, ast.Name):
